@@ -172,8 +172,11 @@ class Model:
                 if len(extra_from_map) > 0:
                     extra = f"\nExtra: {extra_from_map}"
                 raise ModelConstructionError(f"Mismatched Calibration:{missing}{extra}")
+        # Calibration values are real numbers: stored as floats so that integer
+        # valued maps do not turn into integer (overflowing) arithmetic inside
+        # the compiled expressions
         self.calibration_vector = np.array(
-            [[calibration_map[k] for k in self.arglist_calibration]]
+            [[calibration_map[k] for k in self.arglist_calibration]], dtype=float
         ).transpose()
         if self.calibration_vector.shape != (self.calibration_size, 1):
             raise ModelConstructionError(
@@ -240,8 +243,11 @@ class SensorModel:
             "ReadingCovariance", self.readings
         )
 
+        # Calibration values are real numbers: stored as floats so that integer
+        # valued maps do not turn into integer (overflowing) arithmetic inside
+        # the compiled expressions
         self.calibration_vector = np.array(
-            [[calibration_map[k] for k in self.arglist_calibration]]
+            [[calibration_map[k] for k in self.arglist_calibration]], dtype=float
         ).transpose()
         if self.calibration_vector.shape != (self.calibration_size, 1):
             raise ModelConstructionError(
